@@ -736,6 +736,8 @@ class Builder:
                     if kind == "method":
                         if dc.is_property(name):
                             return self.maybe_inline_property(base, ci, dc, obj, name, ctx)
+                        if dc.is_abstractmethod(name) or self.overridden_below(ci, name, dc):
+                            return ("attr", base, name)  # polymorphic: stays an uninterpreted method
                         if dc.is_static(name):
                             return self.func_ref(dc, obj, None, dyn_cls=ci, receiver=base)
                         return self.func_ref(dc, obj, base, dyn_cls=ci)
